@@ -1,5 +1,4 @@
 from shexer.utils.log import log_msg
-from shexer.utils.uri import there_is_arroba_after_last_quotes
 from shexer.utils.triple_yielders import tune_prop, tune_token  # , check_if_property_belongs_to_namespace_list
 from shexer.io.graph.yielder.base_triples_yielder import BaseTriplesYielder
 
@@ -71,33 +70,33 @@ class NtTriplesYielder(BaseTriplesYielder):
         return index_sub + (len(target_str) - len(target_substring))
 
     def _look_for_last_index_of_bnode_token(self, target_str, first_index):
-        target_substring = target_str[first_index:]
-        index_sub = target_substring.find(" ")
-        return index_sub + (len(target_str) - len(target_substring)) - 1
+        return self._look_for_last_index_before_blank(target_str, first_index)
 
     def _look_for_last_index_of_unlabelled_number_token(self, target_str, first_index):
-        target_substring = target_str[first_index:]
-        index_sub = target_substring.find(" ")
-        return index_sub + (len(target_str) - len(target_substring)) - 1
+        return self._look_for_last_index_before_blank(target_str, first_index)
+
+    def _look_for_last_index_before_blank(self, target_str, first_index):
+        index = first_index
+        while index < len(target_str) and not target_str[index].isspace():
+            index += 1
+        if index == len(target_str) and target_str[index - 1] == ".":  # final dot with no blank before it
+            index -= 1
+        return index - 1
 
     def _look_for_last_index_of_literal_token(self, target_str, first_index):
-        target_substring = target_str[first_index:]
-
-        if there_is_arroba_after_last_quotes(target_substring):  # String labelled with language
-            return target_substring[target_substring.rfind("@"):].find(" ") - 1 + target_str.rfind("@")
-        elif "^^" not in target_substring:  # Not typed
-            success = False
-            index_of_quotes = 1
-            while not success:
-                index_of_second_quotes = target_substring[index_of_quotes + 1:].find('"') + index_of_quotes + 1
-                if target_substring[index_of_second_quotes - 1] != "\\":
-                    success = True
-                elif target_substring[index_of_second_quotes - 2] == "\\":  # Case of escaped slash "\\"
-                    success = True
-                index_of_quotes = index_of_second_quotes
-            return index_of_quotes + (len(target_str) - len(target_substring))
-        else:  # Typed
-            return target_substring[target_substring.find("^^"):].find(" ") - 1 + target_str.find("^^")
+        index = first_index + 1
+        while index < len(target_str) and target_str[index] != '"':  # Looking for the closing (unescaped) quotes
+            index += 2 if target_str[index] == "\\" else 1
+        if target_str[index + 1:index + 2] == "@":  # String labelled with language
+            index += 2
+            while index < len(target_str) and (target_str[index].isalnum() or target_str[index] == "-"):
+                index += 1
+            return index - 1
+        elif target_str[index + 1:index + 3] == "^^":  # Typed
+            if target_str[index + 3:index + 4] == "<":
+                return self._look_for_last_index_of_uri_token(target_str, index + 3)
+            return self._look_for_last_index_before_blank(target_str, index + 3)
+        return min(index, len(target_str) - 1)  # Not typed
 
     @property
     def yielded_triples(self):
